@@ -127,20 +127,24 @@ func (store *fileStore) Reset() error {
 	if err := store.Close(); err != nil {
 		return errors.Wrap(err, "close")
 	}
-	// The index goes first: index lines must never outlive the bytes they point at.
+	// The counters go first: a counter must never outlive the messages it vouches for. A crash from here
+	// on leaves counters that say 1 with (some of) the old files still around; a message saved under a
+	// number again replaces the old one.
+	if err := removeFile(store.senderSeqNumsFname); err != nil {
+		return err
+	}
+	if err := removeFile(store.targetSeqNumsFname); err != nil {
+		return err
+	}
+	// The index goes before the body: index lines must never outlive the bytes they point at.
 	if err := removeFile(store.headerFname); err != nil {
 		return err
 	}
 	if err := removeFile(store.bodyFname); err != nil {
 		return err
 	}
+	// The creation time goes last: as long as it is the old one, a reset that is due is still seen to be due.
 	if err := removeFile(store.sessionFname); err != nil {
-		return err
-	}
-	if err := removeFile(store.senderSeqNumsFname); err != nil {
-		return err
-	}
-	if err := removeFile(store.targetSeqNumsFname); err != nil {
 		return err
 	}
 	return store.Refresh()
